@@ -76,7 +76,7 @@ func SeqProfileFor(name string, seed int64) SeqProfile {
 	case "c07k": // the same with a key column
 		p.Cols = []ColDesc{{"k", "key", "", "key"}, {"a", "int", "add", numRepr()}}
 		p.Keyed = true
-		p.Prologue = ""
+		p.Prologue = []string{"", "block1"}[r.Intn(2)]
 		p.PInsert, p.PDelete = 0.4, 0.2
 		p.PSnap = 0.12
 		p.Steps = 30
@@ -85,7 +85,7 @@ func SeqProfileFor(name string, seed int64) SeqProfile {
 		p.Keyed = true
 		p.Idx = []IdxDesc{{"big", "a", "ge", 5}}
 		p.PInsert, p.PDelete, p.PRollback, p.PFailIns = 0.4, 0.2, 0.15, 0.1
-		p.Prologue = ""
+		p.Prologue = []string{"", "", "block1"}[r.Intn(3)]
 		p.Replica = r.Intn(2) == 0
 		p.MaxBody = 4
 	case "c06": // replica convergence, sequential histories over all kinds
@@ -93,6 +93,7 @@ func SeqProfileFor(name string, seed int64) SeqProfile {
 			{"b", "bool", "", "bool"}, {"e", "enum", "", "enum"}, {"t", "tok", "", numRepr()}}
 		p.Idx = []IdxDesc{{"big", "a", "ge", 5}}
 		p.Replica = true
+		p.Lag = []float64{0, 0.5, 0.85}[r.Intn(3)]
 		p.PRollback, p.PFailIns = 0.1, 0.05
 		p.Prologue = []string{"", "block1", "three"}[r.Intn(3)]
 		p.MaxBody = 4
